@@ -158,6 +158,7 @@ func runQueueScenario(sc qScenario, tr *vk.Trace) (timedOut bool) {
 		ready := make(chan struct{})
 		go func() {
 			defer all.Done()
+			defer guard("c20")
 			r.ids.Store(goid(), id)
 			close(ready)
 			f()
